@@ -66,11 +66,27 @@ def run(ctx):
               'request.read does not decode the received frame')
 
     # a half-decoded request is never looked at: the arms that handle a failed request.read do not read the request object
-    ctx.rule('C12.R8', 'the except arms of the try that encloses request.read never read the (partially decoded) request object: the error response is built from constants only, so its encoding cannot fail on a half-decoded header')
+    ctx.rule('C12.R8', 'in the except arms of the try that encloses request.read nothing derived from the (partially decoded) request object flows into the error response: it is built from constants only, so its encoding cannot fail on a half-decoded header')
     ptry = rn.tries[-1] if rn.tries else None
     ctx.need(ptry is not None, 'unrecognised construct: request.read is not inside a try')
     for h in ptry.handlers:
-        uses = [x for st in h.body for x in ast.walk(st) if isinstance(x, ast.Name) and x.id == reqvar and isinstance(x.ctx, ast.Load)]
+        # values derived from the request inside the arm, and their use in what is sent back (logging the object is not the property's concern)
+        derived = {reqvar}
+        for _ in range(3):
+            for st in h.body:
+                for a_ in ast.walk(st):
+                    if isinstance(a_, ast.Assign) and any(isinstance(x, ast.Name) and x.id in derived for x in ast.walk(a_.value)):
+                        for tg in a_.targets:
+                            for y in ast.walk(tg):
+                                if isinstance(y, ast.Name):
+                                    derived.add(y.id)
+        uses = []
+        for st in h.body:
+            for c_ in ast.walk(st):
+                if isinstance(c_, ast.Call) and (call_name(c_) or '').endswith('build_error_response'):
+                    uses += [x for a_ in list(c_.args) + [k.value for k in c_.keywords] for x in ast.walk(a_) if isinstance(x, ast.Name) and x.id in derived]
+                if isinstance(c_, ast.Call) and isinstance(c_.func, ast.Attribute) and c_.func.attr == 'write' and isinstance(c_.func.value, ast.Name) and c_.func.value.id in derived:
+                    uses.append(c_.func.value)
         ctx.check(not uses, 'C12.R8', '%s|except %s reads the undecoded request' % (L, ','.join(handler_catches(h))), '%s:%s %s' % (SESSION, h.lineno, L),
                   'the arm does not touch the request object',
                   'the arm that handles a failed decode reads %s (line %s): the object is only partially decoded there (fields may be missing or carry unvalidated values), so building or encoding the error response from it can raise outside every try, or echo garbage' % (reqvar, sorted(set(u.lineno for u in uses))))
